@@ -412,6 +412,37 @@ package bus
 //@   ensures[C13] result == 0 ==> !at_unlock(has(c.state, signal))
 //@   ensures[C13] forall k string {at_unlock(has(c.state, k))} :: k != signal ==> (at_unlock(has(c.state, k)) <==> at_lock(has(c.state, k))) && at_unlock(c.state[k]) == at_lock(c.state[k])
 
+// proxy.SubscribeID: local subscribers are reference-counted through Client.State; the remote
+// registration is created exactly when the count goes 0 -> 1 (with the handler id that is stored
+// for the later removal) and removed exactly when it goes back to 0 (with the stored id); the
+// local subscription is cancelled on every path of the cancel function.
+//@ interface (c Client) State(signal string, add int) (result int)
+//@   trusted
+//@   modifies c.*
+//@ interface (c Client) Subscribe(serviceID uint32, objectID uint32, actionID uint32) (cancel func(), events chan []byte, err error)
+//@   trusted
+//@   modifies c.*
+//@   ensures err == nil ==> cancel != nil
+//@ func (p *proxyObject) RegisterEvent(objectID uint32, actionID uint32, handler uint64) (result uint64, err error)
+//@   trusted
+//@   modifies everything
+//@ func (p *proxyObject) UnregisterEvent(objectID uint32, actionID uint32, handler uint64) (err error)
+//@   trusted
+//@   modifies everything
+//@ func (p proxy) SubscribeID(action uint32) (cancelfn func(), events chan []byte, err error)
+//@   tags C13
+//@   requires p.client != nil
+//@   modifies everything
+//@   call RegisterEvent#1: assert[C13] subscriptions == 1 && arg0 == p.object && arg1 == action && arg2 == uint64(handler)
+//@   call State#2: assert[C13] subscriptions == 1 && arg1 == handler
+//@ func (p proxy) SubscribeID$1()
+//@   tags C13
+//@   requires p.client != nil && cancel != nil
+//@   modifies everything
+//@   call UnregisterEvent#1: assert[C13] subscriptions == 0 && arg0 == p.object && arg1 == action && arg2 == uint64(handler)
+//@   call State#2: assert[C13] subscriptions == 0 && arg1 == 0
+//@   call State#3: assert[C13] arg1 == int(0 - handler)
+
 // Server-side subscriber table: removal takes out exactly the entry of (user id, connection).
 //@ func (o *signalHandler) removeSignalUser(userID uint64, from Channel) (err error)
 //@   tags C13 C12
